@@ -33,9 +33,9 @@ func genConsts(e *emitter) {
 		}
 		ints[n] = v
 		fmt.Fprintf(&b, "def %s : Nat := %d\n", lowerFirst(n), v)
-		pairs = append(pairs, fmt.Sprintf("(%s, %d)", leanStr(n), v))
+		pairs = append(pairs, fmt.Sprintf("(%s.toList, %d)", leanStr(n), v))
 	}
-	fmt.Fprintf(&b, "def authTypeTable : List (String × Nat) := [%s]\n\n", strings.Join(pairs, ", "))
+	fmt.Fprintf(&b, "def authTypeTable : List (List Char × Nat) := [%s]\n\n", strings.Join(pairs, ", "))
 	// proto names
 	var pnames []string
 	for n := range proto.consts {
@@ -53,9 +53,9 @@ func genConsts(e *emitter) {
 		}
 		strs["proto."+n] = s
 		fmt.Fprintf(&b, "def proto%s : String := %s\n", n, leanStr(s))
-		pairs = append(pairs, fmt.Sprintf("(%s, %s)", leanStr(n), leanStr(s)))
+		pairs = append(pairs, fmt.Sprintf("(%s.toList, %s.toList)", leanStr(n), leanStr(s)))
 	}
-	fmt.Fprintf(&b, "def protoTable : List (String × String) := [%s]\n\n", strings.Join(pairs, ", "))
+	fmt.Fprintf(&b, "def protoTable : List (List Char × List Char) := [%s]\n\n", strings.Join(pairs, ", "))
 	// durations / counts (nanoseconds for time.Duration constants)
 	for _, n := range []string{"maxCertificateLifetime", "maxRoleRequestingCertDuration", "maxAgeSecondsAuthCookie",
 		"maxAgeSecondsVIPCookie", "maxAgeU2FVerifySeconds", "minSecsBetweenTOTPValidations",
